@@ -51,6 +51,7 @@ import PyhamModel.Lemmas.FamilyProfile
 import PyhamModel.Lemmas.Iso
 import PyhamModel.Lemmas.IsoCounts
 import PyhamModel.Lemmas.IsoWF
+import PyhamModel.Lemmas.HistoryProfile
 import PyhamModel.Lemmas.FilterAbsent
 import PyhamModel.Lemmas.Interleave
 namespace Pyham.Props
@@ -346,6 +347,27 @@ theorem C09_on_loaded_consistent_input (D : Dataset) (hc : D.Consistent) :
         (profileFullAt H u).nbr = H.genomeSize u := by
   obtain ⟨H, hl, _, _, hw, hs, _⟩ := loaded_consistent D hc
   exact ⟨H, hl, fun i u ht hu => Pyham.C09_balance H hw hs i u ht hu⟩
+
+/-- **end to end -- the numbers are those of the history**: `copiesInto t q l` is the number of copies that the duplication
+    events of the history `l` place on the branch into `t`, `eventsInto t q l` the number of those events.  For every
+    consistent dataset the whole-dataset tree profile reports at every non-root node, as "duplicated", the copies the encoded
+    histories place on the branch into the node, and as number of duplication events the sum over the events on that branch
+    of (copies - 1).  (C09 / C10 / C06 say the numbers are consistent with each other and with the hierarchy; C03 says the
+    hierarchy realises the history; this composes them into a statement about the input's meaning.) -/
+theorem C09_profile_numbers_are_the_history (D : Dataset) (hc : D.Consistent) :
+    ∃ H, load D.T D.nm D.file = .ok H ∧ ∀ i u, (i :: u) ∈ H.tree.allTaxa →
+      on (profileFullAt H (i :: u)).dupl = (D.fams.map fun f => copiesInto (i :: u) f.1 f.2).sum ∧
+      on (profileFullAt H (i :: u)).duplication =
+        (D.fams.map fun f => copiesInto (i :: u) f.1 f.2 - eventsInto (i :: u) f.1 f.2).sum :=
+  Pyham.C09_profile_numbers_are_the_history D hc
+
+/-- ... and family by family, for whatever realises a well-formed history -/
+theorem C10_family_profile_is_the_history (T : STree) (q : Taxon) (l : SL) (top : Node) (hr : Realises q l top)
+    (hw : wfh T q l = true) (hc : LClosed (locs [] top)) (i : Nat) (u : Taxon) :
+    on (profileHogAt top (i :: u)).dupl = copiesInto (i :: u) q l ∧
+    on (profileHogAt top (i :: u)).duplication = copiesInto (i :: u) q l - eventsInto (i :: u) q l ∧
+    eventsInto (i :: u) q l ≤ copiesInto (i :: u) q l :=
+  realises_profile_counts T q l top hr hw hc i u
 
 /-- the JSON tree of the HTML export embeds exactly the numbers of the profile -/
 theorem C09_json_embeds_profile (H : Ham) :
